@@ -109,6 +109,7 @@ ThrMonStep(m, E) ==
   TOnly({ CASE E.op = "start" -> TOnly({StartStep(m2, E) : m2 \in {Adjust(m1)}})
             [] E.op = "w"     -> TOnly({WriteStep(m2, E) : m2 \in {Adjust(m1)}})
             [] E.op = "stop"  -> StopStep(m1, E)
+            [] E.op = "panic" -> [m1 EXCEPT !.v = {"ANY:throttle-panicked"}]
             [] OTHER          -> m1
           : m1 \in {Elapse([m EXCEPT !.v = {}], E.dt)} })
 =============================================================================
